@@ -11,7 +11,7 @@ inductive F32 where
   | nan
   | inf (neg : Bool)
   | fin (q : Rat) (nz : Bool)   -- `nz` = sign bit, meaningful only when q = 0
-deriving Repr, Inhabited
+deriving Repr, Inhabited, DecidableEq
 
 namespace F32
 
@@ -48,6 +48,15 @@ def sign : F32 → Bool
   | .nan => false | .inf s => s | .fin q nz => if q == 0 then nz else q < 0
 
 def isNaN : F32 → Bool | .nan => true | _ => false
+
+/-- finite (not NaN, not ±∞) -/
+def isFin : F32 → Bool | .fin _ _ => true | _ => false
+
+/-- the rational value of a finite number (0 for NaN/∞, which callers exclude with `isFin`) -/
+def val : F32 → Rat | .fin q _ => q | _ => 0
+
+@[simp] theorem val_fin (q : Rat) (nz : Bool) : (F32.fin q nz).val = q := rfl
+@[simp] theorem isFin_fin (q : Rat) (nz : Bool) : (F32.fin q nz).isFin = true := rfl
 
 /-- canonical form: the zero flag is forced to false for non-zero values -/
 def mk (q : Rat) (nz : Bool) : F32 := if q == 0 then .fin 0 nz else .fin q false
